@@ -489,6 +489,11 @@ class IntegralGenerator:
 
             if self.ir.part == TensorPart.diagonal and block_rank == 2:
                 assert len(A_shape) == 1
+                td0, td1 = (blockdata.ma_data[i].tabledata for i in range(2))
+                if (td0.offset, td0.block_size) != (td1.offset, td1.block_size):
+                    # The arguments address different dofs (other component,
+                    # sub-element or restriction): not a diagonal entry
+                    continue
                 B_indices = [B_indices[0], B_indices[0]]
 
             ttypes = blockdata.ttypes
@@ -564,6 +569,9 @@ class IntegralGenerator:
                     block_size = blockdata.ma_data[i].tabledata.block_size
                     A_indices.append(block_size * index.global_index + offset)
             rhs_expressions[tuple(A_indices)].append(B_rhs)
+
+        if not rhs_expressions:
+            return quadparts, intermediates
 
         # List of statements to keep in the inner loop
         keep = collections.defaultdict(list)
